@@ -262,6 +262,14 @@ func Run(r *core.Run) {
 			m["delta"].(M)["patches"] = []any{ops.ParseJSON(patchKinds["add-public-keys"]), M{"action": "remove-public-keys", "ids": []any{"bad id"}}}
 			rebind(m)
 		})
+		mut("delta-invalid-patch-before-valid-ones", v, func(m M) {
+			m["delta"].(M)["patches"] = []any{M{"action": "remove-public-keys", "ids": []any{"bad id"}}, ops.ParseJSON(patchKinds["add-public-keys"]), ops.ParseJSON(patchKinds["add-services"])}
+			rebind(m)
+		})
+		mut("delta-invalid-patch-between-valid-ones", v, func(m M) {
+			m["delta"].(M)["patches"] = []any{ops.ParseJSON(patchKinds["add-public-keys"]), M{"action": "add-services", "services": []any{M{"id": "s", "type": strings.Repeat("t", 31), "serviceEndpoint": "https://x.example/"}}}, ops.ParseJSON(patchKinds["add-services"])}
+			rebind(m)
+		})
 		mut("delta-second-patch-disabled-kind", v, func(m M) {
 			m["delta"].(M)["patches"] = []any{ops.ParseJSON(patchKinds["add-public-keys"]), ops.ParseJSON(patchKinds["remove-also-known-as"])}
 			rebind(m)
